@@ -160,4 +160,34 @@ def okSection (s : Section) : Bool := okPath s.path && s.rows.all okRow
 
 def okBody (b : List (Bucket × List Section)) : Bool := b.all fun g => g.2.all okSection
 
+/-- The text `txt` printed for the cost `c` is made of the characters of a float literal and reads back. -/
+def costOKb (readCost : Str → Option Rat) (txt : Str) (c : Rat) : Bool :=
+  txt.all costChar && readCost txt == some c
+
+/-- … for every cost of the body (program costs and row costs). -/
+def costsOK (showCost : Rat → Str) (rowCost : Codes → Rat → Str) (readCost : Str → Option Rat)
+    (b : List (Bucket × List Section)) : Bool :=
+  b.all fun g => g.2.all fun s =>
+    costOKb readCost (showCost s.cost) s.cost && s.rows.all fun r => costOKb readCost (rowCost r.taxon r.cost) r.cost
+
+/-- An exact reader of non-negative decimal literals `ddd[.ddd][e[+-]dd]` (what `repr` of a non-negative
+finite float looks like): the rational the literal denotes. -/
+def readDecimal (s : Str) : Option Rat :=
+  let mant := s.takeWhile (· != 'e')
+  let ex := s.dropWhile (· != 'e')
+  let fp := (mant.dropWhile (· != '.')).drop 1
+  match readNat (mant.takeWhile (· != '.')) with
+  | none => none
+  | some i =>
+    if !fp.all Char.isDigit then none
+    else
+      let m : Rat := (i : Rat) + ((Nat.ofDigitChars 10 fp 0 : Nat) : Rat) / ((10 ^ fp.length : Nat) : Rat)
+      match ex with
+      | [] => some m
+      | _ :: e =>
+        match e with
+        | '-' :: d => (readNat d).map fun n => m / ((10 ^ n : Nat) : Rat)
+        | '+' :: d => (readNat d).map fun n => m * ((10 ^ n : Nat) : Rat)
+        | d => (readNat d).map fun n => m * ((10 ^ n : Nat) : Rat)
+
 end Paroxy.ReportText
